@@ -547,3 +547,19 @@ def sample_points(rng, n, box=9.0):
         else:
             pts.append([rng.gauss(0, 3) for _ in range(3)])
     return pts
+
+
+def vary_mats(d, rng, p=0.5):
+    """more varied material cards: extra nuclides, among them nuclides with a zero amount (depletion-style
+    placeholders, still nuclides of the card), in the sign convention of the card"""
+    extra = ['92235', '92238', '94239', '8016', '1001', '5010', '40000', '6000']
+    for num, comp in d.mats.items():
+        if rng.random() > p or not comp or comp[0][1] == '':
+            continue
+        neg = comp[0][1].lstrip().startswith('-')
+        have = set(z for z, _ in comp)
+        for z in rng.sample(extra, rng.randint(1, 3)):
+            if z in have:
+                continue
+            f = rng.choice(['0', '0.0', '0.000', '0.', '1e-3', '0.05', '2.5-2'])
+            comp.insert(rng.randint(0, len(comp)), (z, ('-' if neg else '') + f))
